@@ -267,7 +267,7 @@ class Edits:
         its = sorted(enumerate(its), key=lambda p: (p[1][0], p[1][1], p[0]))
         out = []
         cur = base
-        CUTS = ('R9 truncate', 'R11 skip')
+        CUTS = ('R9 truncate', 'R11 skip', 'R6 abstract', 'R7 abstract stmt', 'R7e abstract expr')   # replaced regions: edits inside are moot
         big = [(s, e) for (s, e, t, k, nt) in self.items if (k == 'drop' and nt == 'cfg-false') or nt in CUTS]
         for _, (s, e, t, kind, note) in its:
             if note not in ('cfg-false',) + CUTS and any(bs <= s and e <= be and not (s == e == bs) for (bs, be) in big):
